@@ -72,3 +72,11 @@ Theorem C18_offset_shifts_instant : forall y mo d h mi sec tl fs minus oh om,
               Some (t0 + (if minus then 1 else -1) * ((om + oh * 60) * 60) * 1000000000))%Z.
 Proof. exact offset_shifts_instant. Qed.
 Print Assumptions C18_offset_shifts_instant.
+
+(* ---- the defect found in the unchanged repository, as a kernel-checked refutation of the original code ---- *)
+From LD Require Import Legacy.
+Theorem C18_legacy_refuted :
+  (instant_of_millis_legacy (dy_of_Z 253402300799000) < 0 /\
+   instant_of_millis (dy_of_Z 253402300799000) = 253402300799000 * 1000000)%Z.
+Proof. exact Legacy.C18_legacy_refuted. Qed.
+Print Assumptions C18_legacy_refuted.
